@@ -54,6 +54,13 @@ CHECKS = {
             "must be in the identity, inside the applicable restrictions/patterns, inside the entity-category entitlement (RELEASE tables read as "
             "data) and inside the SP's declaration where that applies - in every outcome.",
             PURE, "3/C07"),
+    "C08": ("exploration", "end-to-end flow workload with independent transport readers and field-by-field oracle on what the application reads",
+            "SP and IdP built from each other's generated metadata run complete flows for hostile identity classes (XML-special, look-alike "
+            "markup, multi-byte, padded, long, many-valued), NameID formats, authentication contexts, lifetimes, POST/Redirect/SOAP transport via "
+            "Entity.apply_binding and every sign_response x sign_assertion x encrypt_assertion x algorithm setting; the plaintext message must "
+            "contain exactly the asked attributes/values and nothing else, the SP must accept, and ava (trimmed), name_id, in_response_to, issuer, "
+            "authn context and session expiry must equal what was asserted.",
+            TRUST, "3/C08"),
     "C09": ("exploration", "generated metadata layouts + request-variant product + dictionary model of the metadata as oracle",
             "Builds IdPs over hand-written SP metadata (several ACS/SLO/ManageNameID endpoints, bindings, indexes, two SPs, colliding and "
             "look-alike URLs) and calls Server.response_args on every combination of issuer (known/other/unknown) x consumer URL (registered, "
